@@ -1,6 +1,9 @@
 // C17 correspondence harness: a private TestRegistry (inside a TestTestingFixture that lives for the
 // whole case) with a real SetPointerPlugin and up to 10 recording plugins; scripted tests redirect
-// 40 global pointer variables through UT_PTR_SET and end by pass / FAIL / FAIL_C / throw.
+// 52 global pointer variables of four types (void*, function pointer, double*, int**) through UT_PTR_SET and
+// end by pass / FAIL / FAIL_C / throw; `run <outcome> sep|ign|runign` runs the same body in a separate
+// process / as an IgnoredUtestShell / as a run-ignored one; plugins f0, f1 (ids 20, 21) report a failure from
+// their pre action.
 // Ops: `newset` constructs a further SetPointerPlugin object (the constructor resets the table index);
 // `install|enable|disable set` address the most recent one, older ones by id (99, 100, ...).
 // `set <ptr> <val>` lines collect the body of the next test, `run <outcome>` runs it.
@@ -11,30 +14,60 @@
 #include "CppUTest/TestPlugin.h"
 #include "CppUTest/TestRegistry.h"
 #include "CppUTest/TestHarness_c.h"
+#include <sys/mman.h>
 
 #undef new
 
 namespace {
 
-enum { NPTR = 40, NVAL = 64, NREC = 10 };
-char g_init[NPTR];
+// pointer variables of four types, all redirected through the same macro (its `(void**)&(a)` cast):
+//   0..39 void*   40..43 void (*)()   44..47 double*   48..51 int**
+enum { NVOID = 40, NTYPED = 4, NPTR = NVOID + 3 * NTYPED, NVAL = 64, NTVAL = 8, NREC = 10, NFAIL = 2 };
+char g_init[NVOID];
 char g_vals[NVAL];
-void* g_ptr[NPTR];
+void* g_ptr[NVOID];
+volatile int g_fn_sink = 0;
+template <int N> void fn_init() { g_fn_sink = N; }
+template <int N> void fn_val() { g_fn_sink = 100 + N; }
+typedef void (*Fn)();
+Fn const FN_INIT[NTYPED] = { fn_init<0>, fn_init<1>, fn_init<2>, fn_init<3> };
+Fn const FN_VAL[NTVAL] = { fn_val<0>, fn_val<1>, fn_val<2>, fn_val<3>, fn_val<4>, fn_val<5>, fn_val<6>, fn_val<7> };
+Fn g_fp[NTYPED];
+double g_dinit[NTYPED], g_dvals[NTVAL];
+double* g_dp[NTYPED];
+int* g_pinit[NTYPED]; int* g_pvals[NTVAL];
+int** g_pp[NTYPED];
 
-std::vector<std::string>* g_log_pre = 0;
-std::vector<std::string>* g_log_post = 0;
+// Order log and redirection counter live in memory shared with the child of a separate-process run.
+struct Shared { volatile unsigned done; volatile unsigned npre, npost; char pre[32][24]; char post[32][24]; };
+Shared* g_sh = 0;
 
 struct RecPlugin : public TestPlugin {
     unsigned id;
     RecPlugin(const char* name, unsigned i) : TestPlugin(name), id(i) {}
-    void preTestAction(UtestShell&, TestResult&) CPPUTEST_OVERRIDE { g_log_pre->push_back(getName().asCharString()); }
-    void postTestAction(UtestShell&, TestResult&) CPPUTEST_OVERRIDE { g_log_post->push_back(getName().asCharString()); }
+    void preTestAction(UtestShell&, TestResult&) CPPUTEST_OVERRIDE {
+        if (g_sh->npre < 32) { strncpy(g_sh->pre[g_sh->npre], getName().asCharString(), 23); g_sh->npre = g_sh->npre + 1; }
+    }
+    void postTestAction(UtestShell&, TestResult&) CPPUTEST_OVERRIDE {
+        if (g_sh->npost < 32) { strncpy(g_sh->post[g_sh->npost], getName().asCharString(), 23); g_sh->npost = g_sh->npost + 1; }
+    }
 };
+
+// a plugin that reports a failure from its pre action, the non-terminating way (result.addFailure)
+struct FailPrePlugin : public RecPlugin {
+    FailPrePlugin(const char* name, unsigned i) : RecPlugin(name, i) {}
+    void preTestAction(UtestShell& test, TestResult& result) CPPUTEST_OVERRIDE {
+        RecPlugin::preTestAction(test, result);
+        result.addFailure(TestFailure(&test, "pre action failed"));
+    }
+};
+const unsigned FAIL_ID = 20;       // ids 20, 21, names f0, f1
 
 // two objects share the name "p3" (ids 3 and 8) and "p0" (ids 0 and 9): used by the tagged stream only
 const char* REC_NAMES[NREC] = { "p0", "p1", "p2", "p3", "p4", "p5", "p6", "p7", "p3", "p0" };
 const unsigned SET_ID = 99;
 std::vector<SetPointerPlugin*>* g_sets = 0;
+std::vector<RecPlugin*>* g_failing = 0;
 
 struct Script { std::vector<std::pair<unsigned, unsigned> > sets; std::string outcome; };
 Script* g_script = 0;
@@ -45,8 +78,12 @@ void body() {
     const Script* s = g_script;
     size_t n = s->sets.size();
     for (size_t i = 0; i < n; i++) {
-        UT_PTR_SET(g_ptr[s->sets[i].first], (void*) &g_vals[s->sets[i].second]);
-        g_done = g_done + 1;
+        unsigned l = s->sets[i].first, v = s->sets[i].second;
+        if (l < NVOID) UT_PTR_SET(g_ptr[l], (void*) &g_vals[v]);
+        else if (l < NVOID + NTYPED) UT_PTR_SET(g_fp[l - NVOID], FN_VAL[v]);
+        else if (l < NVOID + 2 * NTYPED) UT_PTR_SET(g_dp[l - NVOID - NTYPED], &g_dvals[v]);
+        else UT_PTR_SET(g_pp[l - NVOID - 2 * NTYPED], &g_pvals[v]);
+        g_sh->done = g_sh->done + 1;
     }
     const char* o = s->outcome.c_str();
     if (strcmp(o, "fail") == 0) FAIL("scripted failure");
@@ -55,26 +92,49 @@ void body() {
     if (strcmp(o, "throwint") == 0) throw 42;
 }
 
-std::string val_token(void* p) {
+// an ignored test with the same body
+class BodyUtest : public Utest { public: void testBody() CPPUTEST_OVERRIDE { body(); } };
+class IgnoredBodyShell : public IgnoredUtestShell { public: Utest* createTest() CPPUTEST_OVERRIDE { return new BodyUtest; } };
+
+std::string val_token(unsigned l) {
     char buf[32];
-    char* c = (char*) p;
-    if (c >= g_init && c < g_init + NPTR) snprintf(buf, sizeof buf, "i%d", (int) (c - g_init));
-    else if (c >= g_vals && c < g_vals + NVAL) snprintf(buf, sizeof buf, "v%d", (int) (c - g_vals));
-    else snprintf(buf, sizeof buf, "?");
+    snprintf(buf, sizeof buf, "?");
+    if (l < NVOID) {
+        char* c = (char*) g_ptr[l];
+        if (c >= g_init && c < g_init + NVOID) snprintf(buf, sizeof buf, "i%d", (int) (c - g_init));
+        else if (c >= g_vals && c < g_vals + NVAL) snprintf(buf, sizeof buf, "v%d", (int) (c - g_vals));
+    }
+    else if (l < NVOID + NTYPED) {
+        Fn f = g_fp[l - NVOID];
+        for (int k = 0; k < NTYPED; k++) if (f == FN_INIT[k]) snprintf(buf, sizeof buf, "i%d", NVOID + k);
+        for (int k = 0; k < NTVAL; k++) if (f == FN_VAL[k]) snprintf(buf, sizeof buf, "v%d", k);
+    }
+    else if (l < NVOID + 2 * NTYPED) {
+        double* d = g_dp[l - NVOID - NTYPED];
+        if (d >= g_dinit && d < g_dinit + NTYPED) snprintf(buf, sizeof buf, "i%d", NVOID + NTYPED + (int) (d - g_dinit));
+        else if (d >= g_dvals && d < g_dvals + NTVAL) snprintf(buf, sizeof buf, "v%d", (int) (d - g_dvals));
+    }
+    else {
+        int** q = g_pp[l - NVOID - 2 * NTYPED];
+        if (q >= g_pinit && q < g_pinit + NTYPED) snprintf(buf, sizeof buf, "i%d", NVOID + 2 * NTYPED + (int) (q - g_pinit));
+        else if (q >= g_pvals && q < g_pvals + NTVAL) snprintf(buf, sizeof buf, "v%d", (int) (q - g_pvals));
+    }
     return buf;
 }
 
-std::string join(const char* tag, const std::vector<std::string>& v) {
+std::string join_log(const char* tag, char (*names)[24], unsigned n) {
     std::string s = tag;
-    if (v.empty()) return s + " -";
-    for (size_t i = 0; i < v.size(); i++) { s += " "; s += v[i]; }
+    if (n == 0) return s + " -";
+    for (unsigned i = 0; i < n; i++) { s += " "; s += names[i]; }
     return s;
 }
 
 void run_case(const vh::Case& c) {
-    for (unsigned i = 0; i < NPTR; i++) g_ptr[i] = &g_init[i];
-    std::vector<std::string> log_pre, log_post;
-    g_log_pre = &log_pre; g_log_post = &log_post;
+    for (unsigned i = 0; i < NVOID; i++) g_ptr[i] = &g_init[i];
+    for (unsigned i = 0; i < NTYPED; i++) { g_fp[i] = FN_INIT[i]; g_dp[i] = &g_dinit[i]; g_pp[i] = &g_pinit[i]; }
+    g_sh = (Shared*) mmap(0, sizeof(Shared), PROT_READ | PROT_WRITE, MAP_SHARED | MAP_ANONYMOUS, -1, 0);
+    if (g_sh == (Shared*) MAP_FAILED) { vh::emit("harness-error mmap"); return; }
+    memset(g_sh, 0, sizeof(Shared));
     TestTestingFixture fixture;
     fixture.setTestFunction(body);
     TestRegistry* reg = fixture.getRegistry();
@@ -85,6 +145,13 @@ void run_case(const vh::Case& c) {
     sets.push_back(new SetPointerPlugin("SetPointerPlugin"));
     std::vector<RecPlugin*> rec;
     for (unsigned i = 0; i < NREC; i++) rec.push_back(new RecPlugin(REC_NAMES[i], i));
+    std::vector<RecPlugin*> failing;
+    failing.push_back(new FailPrePlugin("f0", FAIL_ID)); failing.push_back(new FailPrePlugin("f1", FAIL_ID + 1));
+    g_failing = &failing;
+    // shells for the other ways of running the same body
+    ExecFunctionTestShell sepShell; ExecFunctionWithoutParameters sepFn(body); sepShell.testFunction_ = &sepFn;
+    sepShell.setRunInSeperateProcess();
+    IgnoredBodyShell ignShell, runIgnShell; runIgnShell.setRunIgnored();
 
     struct Local {
         static unsigned id_of(TestPlugin* p) {
@@ -95,6 +162,7 @@ void run_case(const vh::Case& c) {
             if (w == "set") { *id = SET_ID + (unsigned) g_sets->size() - 1; return g_sets->back(); }
             *id = (unsigned) vh::to_u64(w);
             if (*id < NREC) return rec[*id];
+            if (*id >= FAIL_ID && *id < FAIL_ID + NFAIL) return (*g_failing)[*id - FAIL_ID];
             if (*id >= SET_ID && *id < SET_ID + g_sets->size()) return (*g_sets)[*id - SET_ID];
             return 0;
         }
@@ -114,6 +182,10 @@ void run_case(const vh::Case& c) {
             }
             if (!any) s += " -";
             vh::emit("%s", s.c_str());
+            // the registry's own view: countPlugins() and getFirstPlugin()
+            TestPlugin* f = reg->getFirstPlugin();
+            if (f == NullTestPlugin::instance()) vh::emit("plugins %d first sentinel", reg->countPlugins());
+            else if (f) vh::emit("plugins %d first %u", reg->countPlugins(), id_of(f));
         }
     };
 
@@ -123,7 +195,7 @@ void run_case(const vh::Case& c) {
         if (w[0] == "install" && w.size() == 2) {                     // install <rec index | set>
             unsigned id = 0;
             TestPlugin* p = Local::by_id(w[1], rec, &id);
-            const char* kind = id >= SET_ID ? "set" : "rec";
+            const char* kind = id >= SET_ID ? "set" : id >= FAIL_ID ? "failpre" : "rec";
             if (!p || Local::in_chain(reg, p)) { vh::emit("> skip"); continue; }     // installing a linked object twice makes a cycle
             vh::emit("> install %u %s %s", id, p->getName().asCharString(), kind);
             reg->installPlugin(p);
@@ -163,37 +235,52 @@ void run_case(const vh::Case& c) {
         else if (w[0] == "set" && w.size() == 3) {                     // set <ptr index> <value index>: appended to the next test's body
             unsigned l = (unsigned) vh::to_u64(w[1]), v = (unsigned) vh::to_u64(w[2]);
             if (l >= NPTR || v >= NVAL) { vh::emit("> skip"); continue; }
+            if (l >= NVOID) v = v % NTVAL;
             vh::emit("> set %u %u", l, v);
             pending.push_back(std::make_pair(l, v));
         }
-        else if (w[0] == "run" && w.size() == 2) {                     // run <outcome>: one test with the collected body
+        else if (w[0] == "run" && (w.size() == 2 || w.size() == 3)) {   // run <outcome> [normal|sep|ign|runign]: one test with the collected body
             Script sc; sc.outcome = w[1];
+            std::string kind = w.size() == 3 ? w[2] : "normal";
             if (sc.outcome != "pass" && sc.outcome != "fail" && sc.outcome != "failc" && sc.outcome != "throw" && sc.outcome != "throwint") {
                 vh::emit("> skip"); continue;
             }
+            if (kind != "normal" && kind != "sep" && kind != "ign" && kind != "runign") { vh::emit("> skip"); continue; }
             sc.sets = pending; pending.clear();
-            std::string canon = "run " + sc.outcome;
-            vh::emit_op(canon);
-            g_script = &sc; g_done = 0;
-            log_pre.clear(); log_post.clear();
-            fixture.flushOutputAndResetResult();
-            fixture.runAllTests();
-            size_t failures = fixture.getFailureCount();
-            std::string out = fixture.getOutput().asCharString();
-            vh::emit("%s", join("pre", log_pre).c_str());
-            vh::emit("%s", join("post", log_post).c_str());
-            vh::emit("done %u", (unsigned) g_done);
+            vh::emit("> run %s %s", sc.outcome.c_str(), kind.c_str());
+            g_script = &sc;
+            g_sh->done = 0; g_sh->npre = 0; g_sh->npost = 0;
+            size_t failures; std::string out;
+            if (kind == "normal") {
+                fixture.flushOutputAndResetResult();
+                fixture.runAllTests();
+                failures = fixture.getFailureCount();
+                out = fixture.getOutput().asCharString();
+            }
+            else {
+                // the shell's own runOneTest with the registry's chain, as TestRegistry::runAllTests calls it
+                StringBufferTestOutput o; TestResult res(o);
+                UtestShell* shell = kind == "sep" ? (UtestShell*) &sepShell : kind == "ign" ? (UtestShell*) &ignShell : (UtestShell*) &runIgnShell;
+                fflush(stdout);
+                shell->runOneTest(reg->getFirstPlugin(), res);
+                failures = res.getFailureCount();
+                out = o.getOutput().asCharString();
+                if (kind == "ign" && res.getIgnoredCount() != 1) vh::emit("not-counted-as-ignored");
+            }
+            vh::emit("%s", join_log("pre", g_sh->pre, g_sh->npre).c_str());
+            vh::emit("%s", join_log("post", g_sh->post, g_sh->npost).c_str());
+            vh::emit("done %u", (unsigned) g_sh->done);
             bool overflow = out.find("Maximum number of function pointers installed!") != std::string::npos;
             vh::emit("result %s", overflow ? "overflow" : failures ? "fail" : "pass");
-            if (failures > 1) vh::emit("failures %lu", (unsigned long) failures);
             std::string m = "mem";
-            for (unsigned k = 0; k < NPTR; k++) { m += " "; m += val_token(g_ptr[k]); }
+            for (unsigned k = 0; k < NPTR; k++) { m += " "; m += val_token(k); }
             vh::emit("%s", m.c_str());
         }
         else vh::emit("> skip");
     }
     // end of case: leave the process-wide table clean, detach the plugins before they go out of scope
     reg->resetPlugins();
+    munmap(g_sh, sizeof(Shared));
 }
 
 } // namespace
